@@ -287,6 +287,12 @@ Fixpoint run (s : sys) (ls : list label) : option sys :=
 Definition init_sys (m : mode) (rq : list req) (rows : list row) (p : prod) : sys :=
   mk_sys m p [] CActive rows [] rq 1 0.
 
+Definition pager_init (m : mode) (script : list pscript) : option sys :=
+  match start m script with
+  | (rq0, SPager rows p) => Some (init_sys m rq0 rows p)
+  | _ => None
+  end.
+
 (* ---- sequential reference: what the worker does when it is never blocked nor dropped ----- *)
 
 Definition tail_msgs (r : fetch_result) : list msg :=
